@@ -11,6 +11,12 @@ ops (attribute names are small integers, the driver uses "a<k>" as the name)
   ["mut", refindex, component, comp]     in-place update  ref[component] = comp  of the refindex-th vector handed out by get
   ["append"] ["extend_list", m, "list"|"tuple"|"set"] ["extend_other", m, other_has_attr] ["extend_self"]
   ["extend_bad", "range"|"nparray"|"dict"|"none"] ["clear_all"] ["clen"] ["snap"]
+  ["update", a, key, c, comp]            attr[key][c] = comp   (the read hands out a reference like get)
+  ["mutarr", refindex, row, c, comp]     in-place update of element (row, c) of an array handed out by as_array
+  ["contains", a, k]                     k in attr
+  ["extend_list_bad", m]                 += [m well-formed items, then the int 5] (a corner container cannot unpack it)
+  ["create_sized", a, type, arity, default|None, size]     create_attribute(dense=True, size=size)
+  ["register", a, type, arity, rows, default|None, one_d]  register_array_as_attribute(np.array(rows))
 value : ["scal", comp] | ["list", [comp..]] | ["tuple", [comp..]] | ["nparr", [comp..]] | ["str", text]
 comp  : ["b", 0|1, fl] | ["i", z, fl] | ["f", z8, fl] (value z8/8) | ["c", re8, im8] | ["s", text] | ["x", which]
         fl in "py" "np" "np32"; which in "none" "f16" "c128" "npstr" "list"
@@ -116,6 +122,14 @@ def errkind(ex):
         return "notiter"
     if n == "IndexError":
         return "index"
+    if n == "TypeError" and "does not support item assignment" in str(ex):
+        return "notsub"
+    if n in ("TypeError", "ValueError") and ("cannot unpack" in str(ex) or "values to unpack" in str(ex)):
+        return "unpack"
+    if n == "ValueError" and "truth value of an array" in str(ex):
+        return "ambiguous"
+    if n == "Exception" and str(ex).startswith("data array has invalid shape"):
+        return "shape"
     if n == "Exception" and str(ex) == "Attribute does not exist":
         return "noattr"
     if n == "Exception" and str(ex).startswith("Could not append data container"):
@@ -198,10 +212,8 @@ def run_case(case):
                 arr = at.as_array(len(cont))
                 n = len(cont)
                 arr = np.asarray(arr)
-                if arr.size != n * at.elemsize:
-                    out.append(["other", "as_array has %d entries for a container of %d x %d" % (arr.size, n, at.elemsize)])
-                else:
-                    out.append(["rows", rows_of(arr, at)])
+                refs.append(("arr", arr, at.elemsize))
+                out.append(["rows", rows_of(arr, at)])
             elif name == "len":
                 out.append(["nat", int(len(cont.get_attribute(nm(op[1]))))])
             elif name == "iter":
@@ -227,7 +239,7 @@ def run_case(case):
                     if not isinstance(v, np.ndarray) or np.asarray(v).shape != (at.elemsize,):
                         out.append(["other", "read of a vector attribute returned %r" % (v,)])
                     else:
-                        refs.append(v)
+                        refs.append(("vec", v))
                         out.append(["val", [canon_comp(x, t) for x in list(np.asarray(v))], True, len(refs) - 1])
                 else:
                     if isinstance(v, np.ndarray):
@@ -238,13 +250,65 @@ def run_case(case):
                 out.append(["snap", snapshot()])
             elif name == "mut" and op[1] >= len(refs):
                 out.append(["err", "noref"])
+            elif name == "mut" and refs[op[1]][0] != "vec":
+                out.append(["err", "badref"])
             elif name == "mut":
-                r = refs[op[1]]
+                r = refs[op[1]][1]
                 with warnings.catch_warnings():
                     warnings.simplefilter("ignore")
                     r[int(op[2])] = mkcomp(op[3])
                 out.append(["snap", snapshot()])
-            elif name in ("append", "extend_list", "extend_other", "extend_self", "extend_bad"):
+            elif name == "mutarr" and op[1] >= len(refs):
+                out.append(["err", "noref"])
+            elif name == "mutarr" and refs[op[1]][0] != "arr":
+                out.append(["err", "badref"])
+            elif name == "mutarr":
+                _, arr, k = refs[op[1]]
+                view = arr.reshape(-1, k)
+                if not np.shares_memory(view, arr) and arr.size:
+                    out.append(["other", "reshape of the exported array made a copy"])
+                else:
+                    with warnings.catch_warnings():
+                        warnings.simplefilter("ignore")
+                        view[int(op[2]), int(op[3])] = mkcomp(op[4])
+                    out.append(["snap", snapshot()])
+            elif name == "update":
+                at = cont.get_attribute(nm(op[1]))
+                v = at[int(op[2])]
+                if at.elemsize > 1 and isinstance(v, np.ndarray) and np.asarray(v).shape == (at.elemsize,):
+                    refs.append(("vec", v))
+                with warnings.catch_warnings():
+                    warnings.simplefilter("ignore")
+                    v[int(op[3])] = mkcomp(op[4])
+                out.append(["ok"])
+            elif name == "contains":
+                with warnings.catch_warnings():
+                    warnings.simplefilter("ignore")
+                    r = int(op[2]) in cont.get_attribute(nm(op[1]))
+                out.append(["bool", bool(r)])
+            elif name == "create_sized":
+                _, a, t, k, d, size = op
+                dv = None if d is None else mkcomp(d)
+                with warnings.catch_warnings():
+                    warnings.simplefilter("ignore")
+                    r = cont.create_attribute(nm(a), TYPES[t], k, dense=True, default_value=dv, size=size)
+                out.append(["ok"] if r is cont.get_attribute(nm(a)) else ["other", "create returned another object"])
+            elif name == "register":
+                _, a, t, k, rows, d, one_d = op
+                dv = None if d is None else mkcomp(d)
+                dt = {"bool": bool, "int": np.int64, "float": np.float64, "complex": np.complex128, "str": "<U32"}[t]
+                data = np.array([[mkcomp(c) for c in r] for r in rows], dtype=dt).reshape(len(rows), k)
+                if one_d and k == 1:
+                    data = data.reshape(len(rows))
+                had = cont.has_attribute(nm(a))
+                with warnings.catch_warnings():
+                    warnings.simplefilter("ignore")
+                    r = cont.register_array_as_attribute(nm(a), data, default_value=dv)
+                if had:
+                    out.append(["ok"] if r is None else ["other", "register on an existing name returned %r" % (r,)])
+                else:
+                    out.append(["ok"] if r is cont.get_attribute(nm(a)) else ["other", "register returned another object"])
+            elif name in ("append", "extend_list", "extend_other", "extend_self", "extend_bad", "extend_list_bad"):
                 try:
                     if name == "append":
                         if corner:
@@ -269,6 +333,9 @@ def run_case(case):
                         cont += other
                     elif name == "extend_self":
                         cont += cont
+                    elif name == "extend_list_bad":
+                        items = [((fresh(), fresh()) if corner else fresh()) for _ in range(op[1])]
+                        cont += items + [5]
                     else:
                         bad = {"range": range(2), "nparray": np.array([1, 2]), "dict": {1: 2}, "none": None}[op[1]]
                         cont += bad
